@@ -1,6 +1,8 @@
 (* C08 — temporal bounds denote physical durations whatever the unit notation. *)
 From Coq Require Import ZArith QArith List String.
+From RV Require Import PyUnits UnitsGen.    (* before UnitsLift: `normalize` below is UnitsLift.normalize, not the attribute of the interpreter *)
 From RV Require Import Val Syntax Rho Offline Pastify Units UnitsLift UnitsLiftCorrect ExtZ.
+From RV Require Import UnitsGenCorrect.
 Import ListNotations.
 Local Open Scope Q_scope.
 
@@ -148,6 +150,25 @@ Theorem C08_formula_dense_units :
     (forall bs, spec_dense_online AR pk du1 tick1 ce1 u1 bs = spec_dense_online AR pk du2 tick2 ce2 u2 bs).
 Proof. exact @dense_monitors_units. Qed.
 Print Assumptions C08_formula_dense_units.
+
+(* the conversion functions GENERATED from the Python text on every build (tools/py2coq_units.py -> UnitsGen.v) compute the hand models
+   above: the unit dictionaries of the interpreter and of the AST are uval; DiscreteTimeInterpreter.time_unit_transformer returns the
+   two ints of to_samples_z or fails in the same class (RTAMTException / another exception); DenseTimeInterpreter.time_unit_transformer
+   returns the bounds of to_dense (an int by value, a float as the reduced rational it rounds) or RTAMTException,
+   a bound being a Python int exactly when it is a whole number of default units;
+   check_pastified_bounds converts every stored interval, the first failure is its result *)
+Theorem C08_generated_conversion :
+  (forall u, gen_U u = uval u) /\ (forall u, gen_ast_U u = uval u) /\
+  (forall s i, to_outcome (gen_time_unit_transformer s i) =
+               to_samples_z (ast_unit (dti_ast s)) (sampling_period s) (sampling_period_unit s) i) /\
+  (forall s i, to_outcome (res_map nn_val (gen_dense_time_unit_transformer s i)) = to_dense (ast_unit (dnti_ast s)) i) /\
+  (forall s i b e, gen_dense_time_unit_transformer s i = Ret (b, e) ->
+     is_nint b = is_int (fst (to_default (ast_unit (dnti_ast s)) i)) /\ is_nint e = is_int (snd (to_default (ast_unit (dnti_ast s)) i))) /\
+  (forall s, to_outcome (gen_check_pastified_bounds s) =
+             rmap (fun _ => s) (check_all (to_samples_z (ast_unit (dti_ast s)) (sampling_period s) (sampling_period_unit s))
+                                          (ast_pastified_intervals (dti_ast s)))).
+Proof. exact @units_gen_refines. Qed.
+Print Assumptions C08_generated_conversion.
 
 (* non-vacuity, on the executable instance:
      default unit s,  period 500000 us:  (once[500ms, 1500] (x0 >= 1)) since[k0 : k1 s] (always[0, 2000ms] (x1 >= 0))   with k0 = 0, k1 = 1
